@@ -28,6 +28,7 @@ func forall(lo, hi int, f func(int) bool) bool {
 	return true
 }
 func built(b strings.Builder) string { return b.String() }
+func fresh(x any) bool               { return true }
 
 // ---- positions (property C10: "start is the line/column of its first byte") ----
 
@@ -69,6 +70,19 @@ func lexInv(l *Lexer) bool {
 		l.CurrentChar == byteAt(l.input, l.position) &&
 		l.Line == lineOf(l.input, l.position) && l.Column == colOf(l.input, l.position)
 }
+
+// LexInv: exported form of the cursor invariant, for the contracts of package parser.
+func LexInv(l *Lexer) bool { return lexInv(l) }
+
+// LexPos: the byte offset of the cursor (exported for the parser's contracts).
+func LexPos(l *Lexer) int { return l.position }
+
+// LexTok is a ghost predicate: "t is a value returned by Lexer.NextToken". Its only introduction rule is the
+// definitional postcondition [origin] of NextToken; it is otherwise uninterpreted, so no code can establish it for a
+// synthesised token (used by the parser's contract that error ranges are token ranges, property C11).
+//
+//xvc:uninterpreted
+func LexTok(t token.Token) bool { return true }
 
 // ---- character classes (stated independently of helpers.go) ----
 
@@ -439,6 +453,7 @@ func isQuote(c byte) bool { return c == '"' || c == '\'' || c == '`' }
 //@   ensures [slice] implies(specLetter(byteAt(l.input, skipTrivia(l.input, old(l.position)))) || specDigit(byteAt(l.input, skipTrivia(l.input, old(l.position)))), result.Literal == l.input[skipTrivia(l.input, old(l.position)):l.position])
 //@   ensures [kw] implies(specLetter(byteAt(l.input, skipTrivia(l.input, old(l.position)))), result.Type == token.SpecLookup(result.Literal) && l.position == identEnd(l.input, skipTrivia(l.input, old(l.position))))
 //@   ensures [nl] result.AfterNewline == hasNL(l.input, old(l.position), skipTrivia(l.input, old(l.position)))
+//@   ensures-def [origin] LexTok(result)
 
 //@ func (l *Lexer) useTokenInterceptor
 //@   props C04 C10
@@ -454,8 +469,10 @@ func isQuote(c byte) bool { return c == '"' || c == '\'' || c == '`' }
 //@ func newWithOptions
 //@   props C10 C04 C14
 //@   ensures [fresh] result != nil && lexInv(result) && result.position == 0 && result.input == input
+//@   ensures [fresh.object@C14] fresh(result)
 //@   loop 1 invariant [state] l != nil && l.position == 0 && l.readPosition == 0 && l.Column == -1 && l.Line == 0 && l.CurrentChar == 0 && l.input == input
 
 //@ func (lb *Builder) Build
 //@   props C10 C14 C04
 //@   ensures [fresh] result != nil && lexInv(result) && result.position == 0 && result.input == input
+//@   ensures [fresh.object@C14] fresh(result)
